@@ -1,6 +1,7 @@
 import Driver.Ops
 import Vanguard.Spec.Codes
 import Vanguard.Spec.Timeout
+import Vanguard.Spec.Routing
 /-!
   Oracle mode: `vgdriver spec Cxx` reads lines `op args…<TAB>result` (result = what the
   *implementation* printed) and evaluates the executable specification the theorems of
@@ -18,6 +19,16 @@ def parseExtracted : List String → Option (Option (Option Int))
   | ["reject"] => some none
   | ["none"] => some (some none)
   | ["some", d] => d.toInt?.map (fun x => some (some x))
+  | _ => none
+
+def parseMatch : List String → Option MatchRes
+  | ["none"] => some .none
+  | ["panic"] => some .panic
+  | ["allow", h] => (fromHex h).map fun b => .allow (splitOnByte 0x2C b)
+  | "found" :: idx :: vars => do
+    let i ← idx.toNat?
+    let vs ← vars.mapM fromHex
+    pure (.found i vs)
   | _ => none
 
 def verdict (b : Bool) (why : String) : String := if b then "ok" else "fail " ++ why
@@ -62,6 +73,24 @@ def specCheck (prop : String) (op res : List String) : String :=
     match n.toInt?, res with
     | some d, [r] => match fromHex r with
       | some enc => verdict (Spec.connectEncodeOk d enc) "Connect-Timeout-Ms sent to backend is invalid, exceeds the client's or is short by 1ms or more"
+      | none => "fail unparsable result"
+    | _, _ => "fail unparsable result"
+  | "C06", ["route", rules, path, method] =>
+    match fromHex rules, fromHex path, fromHex method with
+    | some rs, some p, some m =>
+      match addRoutes 0 [] (parseRules rs) with
+      | .error _ => "nospec"     -- rejected tables are C17's business
+      | .ok routes =>
+        match parseMatch res with
+        | some r => verdict (Spec.routeOutcomeOk routes p m r)
+            "routing outcome contradicts the declarative matcher (wrong binding / captures / Allow / 404 / precedence)"
+        | none => "fail unparsable result"
+    | _, _, _ => "fail unparsable args"
+  | "C06", ["path_escape", "single", h] =>
+    match fromHex h, res with
+    | some s, [r] => match fromHex r with
+      | some enc => verdict (pathUnescape .single enc == some s && enc.all isLiteral)
+          "escaped value is not a literal segment or does not decode to the value"
       | none => "fail unparsable result"
     | _, _ => "fail unparsable result"
   | _, _ => "nospec"
